@@ -391,16 +391,18 @@ type Out struct {
 	Transient []string `json:"transient"`
 	StepErrs  []string `json:"step_errors"` // a statement or write of the history itself was refused, or the restart failed
 	DropAt    int64    `json:"drop_unix_ms"`
+	Drop2     *Drop    `json:"drop2,omitempty"` // the drop that is followed by kill -9 at once
 }
 
 const fieldK = 5 // threshold of the field filter
 
 type runner struct {
-	s       *server
-	h       *History
-	ref     *ref
-	out     *Out
-	dropped []row // rows removed by the drop (for the classification)
+	s        *server
+	h        *History
+	ref      *ref
+	out      *Out
+	dropped  []row // rows removed by the drop (for the classification)
+	dropped2 []row // rows removed by the second drop (the one followed by kill -9)
 }
 
 func fullMst(h *History, m string) string {
@@ -851,20 +853,34 @@ func (rn *runner) classify(m string, sh *Shape, field bool, kind string, got, wa
 	} else {
 		live = rn.liveRows(m, sh.Q, field)
 	}
-	if kind == "counttime" {
-		in := live[:0:0]
-		for _, x := range live {
-			if x.T >= 0 && x.T < 100 {
-				in = append(in, x)
-			}
-		}
-		live = in
+	w := rn.wantOf(kind, live)
+	if w == nil {
+		return ""
 	}
-	var w []string
+	if eqS(w, got) {
+		return "dropped-only"
+	}
+	return "other"
+}
+
+// wantOf: the canonical expectation of an aggregated / listing shape over the given live rows
+func (rn *runner) wantOf(kind string, live []row) []string {
+	h := rn.h
+	w := []string{}
+	seen := map[string]bool{}
+	add := func(x string) {
+		if !seen[x] {
+			seen[x] = true
+			w = append(w, x)
+		}
+	}
 	switch kind {
 	case "count", "countby", "counttime":
 		groups := map[string][2]int64{}
 		for _, x := range live {
+			if kind == "counttime" && !(x.T >= 0 && x.T < 100) {
+				continue
+			}
 			g := ""
 			if kind == "countby" {
 				g = h.Series[x.S].Tags["host"]
@@ -883,24 +899,42 @@ func (rn *runner) classify(m string, sh *Shape, field bool, kind string, got, wa
 				w = append(w, fmt.Sprintf("%s|%d|%d", g, c[0], c[1]))
 			}
 		}
-	case "tagkeys":
-		seen := map[string]bool{}
+	case "series":
 		for _, x := range live {
-			for k := range h.Series[x.S].Tags {
-				if !seen[k] {
-					seen[k] = true
-					w = append(w, k)
-				}
+			add(h.Series[x.S].id())
+		}
+	case "tagvalues":
+		for _, x := range live {
+			add(h.Series[x.S].Tags["host"])
+		}
+	case "tagvalueskv":
+		for _, x := range live {
+			for k, v := range h.Series[x.S].Tags {
+				add(k + "=" + v)
 			}
 		}
+	case "tagkeys":
+		for _, x := range live {
+			for k := range h.Series[x.S].Tags {
+				add(k)
+			}
+		}
+	case "card", "tvcard":
+		for _, x := range live {
+			if kind == "card" {
+				seen[h.Series[x.S].id()] = true
+			} else {
+				seen[h.Series[x.S].Tags["host"]] = true
+			}
+		}
+		if len(seen) > 0 {
+			w = []string{strconv.Itoa(len(seen))}
+		}
 	default:
-		return ""
+		return nil
 	}
 	sort.Strings(w)
-	if eqS(w, got) {
-		return "dropped-only"
-	}
-	return "other"
+	return w
 }
 
 // waitVisible waits (bounded) until the listing shows every series the reference expects: index items become searchable
@@ -1277,6 +1311,44 @@ func main() {
 	} else {
 		time.Sleep(1500 * time.Millisecond)
 		step("after-restart", func(rn *runner) error { rn.readAll("after-restart", false); return nil })
+	}
+	// phase 6: a second DROP SERIES on what is left, acknowledged, and kill -9 IMMEDIATELY afterwards (no flush, no wait):
+	// an acknowledged drop must survive a crash like an acknowledged write does
+	if srv.cmd != nil {
+		step("drop2", func(rn *runner) error {
+			h := rn.h
+			if h.DB != sharedDB || rn.ref.gone {
+				return nil
+			}
+			for _, m := range h.Msts {
+				live := rn.liveRows(m, nil, false)
+				if rn.ref.dead[m] || len(live) == 0 {
+					continue
+				}
+				host := h.Series[live[0].S].Tags["host"]
+				d := Drop{Kind: "series", Mst: m, Pred: &Pred{Kind: "eq", Key: "host", Val: host}, N: 1}
+				rn.out.Drop2 = &d
+				rn.dropped2 = rn.ref.applyDrop(&d)
+				_, err := srv.query(h.DB, "drop series from "+fullMst(h, m)+" where host = '"+host+"'")
+				return err
+			}
+			return nil
+		})
+		srv.kill()
+		if err := srv.start(); err != nil {
+			for _, rn := range rs {
+				rn.out.StepErrs = append(rn.out.StepErrs, "restart after crash failed: "+err.Error())
+			}
+		} else {
+			time.Sleep(1500 * time.Millisecond)
+			step("after-crash", func(rn *runner) error {
+				if rn.out.Drop2 != nil {
+					rn.dropped = rn.dropped2 // "dropped-only" in this phase: expected + rows of the series the SECOND drop named
+					rn.readAll("after-crash", false)
+				}
+				return nil
+			})
+		}
 	}
 	for _, rn := range rs {
 		gen.Emit(rn.out)
